@@ -613,3 +613,90 @@ def run_c16_intopt(c, ctx):
         devs.append(dev('wrongly-accepted:value-equal-to-a-truncated-option', dict(text=text, data=repr(res.data())[:160])))
     return outcome(classes=classes, nontrivial=True, fp='e16o ' + text, dev=devs, monitors={'edge_programs': 1},
                    sample=dict(text=text, expected='accepted' if ok else 'rejected'))
+
+
+# ------------------------------------------------------------------------------------------------ C16, values of lower rank than declared
+# "every declared array dimension lies within its bounds": a declared dimension that the final value does not have at all is
+# not within its bounds - the value of a node declared [2,2:3] is a matrix, [5,6] or 7 is none.  Controls of the declared rank
+# (inside and outside the bounds) behave as everywhere else.  Values of HIGHER rank are not in the statement and not asked.
+
+def gen_c16_rank(rng):
+    return dict(edge='c16-rank', kind=rng.choice(['vector-for-matrix', 'scalar-for-vector', 'scalar-for-matrix', 'modification-of-lower-rank',
+                                                   'declaration-then-scalar', 'open-bounds-scalar', 'control-matrix-inside', 'control-matrix-outside',
+                                                   'control-vector-inside', 'control-modification-same-rank']),
+                dt=rng.choice(['int', 'float']), unit=rng.choice([None, 'cm']), a=rng.randint(1, 9), b=rng.randint(1, 9), grouped=rng.random() < 0.3)
+
+
+def run_c16_rank(c, ctx):
+    k, dt, a, b = c['kind'], c['dt'], c['a'], c['b']
+    u = (' ' + c['unit']) if c['unit'] else ''
+    ind, pre = ('  ', ['grp']) if c['grouped'] else ('', [])
+    ok = k.startswith('control') and k != 'control-matrix-outside'
+    L = {'vector-for-matrix': ['m %s[2,2:3] = [%d,%d]%s' % (dt, a, b, u)],
+         'scalar-for-vector': ['m %s[2] = %d%s' % (dt, a, u)],
+         'scalar-for-matrix': ['m %s[1:,1:] = %d%s' % (dt, a, u)],
+         'modification-of-lower-rank': ['m %s[2,2] = [[1,2],[3,4]]%s' % (dt, u), 'm = [%d,%d]%s' % (a, b, u)],
+         'declaration-then-scalar': ['m %s[2:]%s' % (dt, u), 'm = %d' % a],
+         'open-bounds-scalar': ['m %s[:] = %d%s' % (dt, a, u)],
+         'control-matrix-inside': ['m %s[2,2:3] = [[%d,%d,1],[%d,%d,2]]%s' % (dt, a, b, b, a, u)],
+         'control-matrix-outside': ['m %s[2,2:3] = [[%d],[%d]]%s' % (dt, a, b, u)],
+         'control-vector-inside': ['m %s[2:] = [%d,%d,%d]%s' % (dt, a, b, a, u)],
+         'control-modification-same-rank': ['m %s[2,2] = [[1,2],[3,4]]%s' % (dt, u), 'm = [[%d,%d],[%d,%d]]%s' % (a, b, b, a, u)]}[k]
+    text = '\n'.join(pre + [ind + l for l in L]) + '\n'
+    classes = ['edge:value-rank-versus-declared-dimensions', 'edge:rank:' + k]
+    devs = []
+    st, res, keep = parse(ctx, text, 'e16r')
+    if ok and st != 'ok':
+        devs.append(dev('wrongly-rejected:value-of-the-declared-rank-within-bounds', dict(text=text, exc=repr(res)[:200])))
+    if not ok and st == 'ok':
+        devs.append(dev('wrongly-accepted:%s' % ('value-lacks-a-declared-dimension' if not k.startswith('control') else 'dimension-outside-bounds'),
+                        dict(text=text, data=repr(res.data())[:160])))
+    return outcome(classes=classes, nontrivial=True, fp='e16r ' + text, dev=devs, monitors={'edge_programs': 1},
+                   sample=dict(text=text, expected='accepted' if ok else 'rejected'))
+
+
+# ------------------------------------------------------------------------------------------------ C14, one custom-unit NAME in several parses
+# A custom unit belongs to the text that defines it.  Several independent parses of one process define a unit of the same
+# name with another size (or another dimension): every parse converts the last assignment with ITS definition.
+
+def gen_c14_unitname(rng):
+    sizes = rng.sample([2.0, 5.0, 0.5, 10.0, 4.0, 0.25], 3)
+    return dict(edge='c14-unitname', sizes=sizes, x=rng.choice([3.0, 4.0, 12.0]), y=rng.choice([4.0, 6.0, 1.0]), base=rng.choice(['m', 's', 'g']),
+                direction=rng.choice(['custom-is-definition-unit', 'custom-is-assignment-unit']), dt=rng.choice(['float', 'float', 'int']),
+                last=rng.choice(['other-dimension', 'other-size', 'other-size']))
+
+
+def run_c14_unitname(c, ctx):
+    from scinumtools.dip.settings import Format
+    base, x, y = c['base'], c['x'], c['y']
+    other = {'m': 's', 's': 'g', 'g': 'm'}[base]
+    devs, texts = [], []
+    classes = ['edge:custom-unit-name-reused-across-parses', 'edge:custom-unit-name:' + c['direction']]
+    steps = [(s, base) for s in c['sizes']]
+    if c['last'] == 'other-dimension':
+        steps[-1] = (steps[-1][0], other)
+        classes.append('edge:custom-unit-name:redefined-in-another-dimension')
+    for i, (size, b) in enumerate(steps):
+        if c['direction'] == 'custom-is-definition-unit':
+            L = ['$unit qq = %r %s' % (size, b), 'w float = %r [qq]' % x, 'w = %r %s' % (y, base)]
+            exp, eu = y / size, '[qq]'
+        else:
+            L = ['$unit qq = %r %s' % (size, b), 'w float = %r %s' % (x, base), 'w = %r [qq]' % y]
+            exp, eu = y * size, base
+        text = '\n'.join(L) + '\n'
+        texts.append(text)
+        st, res, keep = parse(ctx, text, 'e14u')
+        must_fail = b != base
+        if must_fail:
+            if st == 'ok':
+                devs.append(dev('custom-unit-name:assignment-in-another-dimension-accepted-in-parse-%d' % (i + 1), dict(texts=texts, data=repr(res.data(Format.TUPLE))[:200])))
+        elif st != 'ok':
+            devs.append(dev('custom-unit-name:valid-program-rejected-in-parse-%d' % (i + 1), dict(texts=texts, exc=repr(res)[:200])))
+        else:
+            o = res.data(Format.TUPLE).get('w')
+            if not isinstance(o, tuple) or o[1] != eu or not close(o[0], exp, 1e-9):
+                devs.append(dev('custom-unit-name:parse-%d-does-not-convert-with-its-own-definition' % (i + 1), dict(texts=texts, observed=repr(o), expected=(exp, eu))))
+        if devs:
+            break
+    return outcome(classes=classes, nontrivial=True, fp='e14u ' + ''.join(texts), dev=devs, monitors={'edge_programs': 1, 'custom_unit_name_parses': len(texts)},
+                   sample=dict(texts=texts))
